@@ -496,15 +496,18 @@ def cpu_only(net, rng, x, kind=None):
     if kind == "CUSTOM":
         y = net.tensor(list(x.shape), x.dtype, x.scale, x.zp)
         code = rng.choice(["VerifThirdPartyOp", "VerifOtherOp", "AnotherVendorOp"])
-        net.op("CUSTOM", [x], [y], custom_code=code, custom_options=b"\x01\x02\x03verif\x00" if code[0] == "V" else b"")
+        # option bytes: some, none (empty vector), or the field absent altogether (it is optional)
+        net.op("CUSTOM", [x], [y], custom_code=code,
+               custom_options=b"\x01\x02\x03verif\x00" if code[0] == "V" else (b"" if rng.random() < 0.5 else None))
         return y
     if kind == "FLOAT_ROUNDTRIP":
+        # operator versions vary from one instance to the next: a model may hold one operator type at two versions
         f = net.tensor(list(x.shape), "float32")
-        net.op("DEQUANTIZE", [x], [f], {})
+        net.op("DEQUANTIZE", [x], [f], {}, version=rng.choice([2, 3]))
         g = net.tensor(list(x.shape), "float32")
         net.op("FLOOR", [f], [g])
         y = net.tensor(list(x.shape), x.dtype, x.scale, x.zp)
-        net.op("QUANTIZE", [g], [y], {})
+        net.op("QUANTIZE", [g], [y], {}, version=rng.choice([1, 2]))
         return y
     if kind == "L2_NORMALIZATION":
         y = net.tensor(list(x.shape), x.dtype, 1.0 / 128, 0 if x.dtype == "int8" else 128)
